@@ -646,3 +646,11 @@ Qed.
 
 Definition ex_msg : list N :=
   [46; 49; 0; 0; 103; 189; 237; 163; 2; 0; 40; 235; 5; 0; 0; 0; 2; 0; 0; 0; 0; 0; 0; 0; 1; 2].
+
+(* The constants regenerated from the C++ sources (defs.h, fusion_engine_framer.cc, crc.cc) are the ones the
+   SPEC judge (Base/FEFormat.v, constants from the Python wire-format definition) is written with. *)
+Lemma fe_consts_agree :
+  CPP_SYNC0 = SYNC0 /\ CPP_SYNC1 = SYNC1 /\ FR_HEADER_SIZE = N.of_nat HEADER_SIZE /\ FR_HEADER_SIZE = 24 /\
+  FR_OFF_RESERVED = 2 /\ FR_OFF_CRC = 4 /\ FR_OFF_CRC_START = 8 /\ FR_OFF_PSIZE = 16 /\
+  FR_CLAMP = 2147483647 /\ FR_ALIGN_MASK = 3 /\ FR_MANAGED_EXTRA = 3.
+Proof. repeat split; reflexivity. Qed.
